@@ -13,6 +13,11 @@ NA_FIXED = {
 }
 
 CLAIMS = {
+    'C05': dict(
+        technique="static reset-completeness (MIR mutation summaries x dominance), typed-HIR event-order analysis with linear normal forms for the zero-before-truncated-IFFT contract and decoder buffer tiling, must-pass-through for constructor hand-over, reachability of hidden inputs over the call graph",
+        text="Decides the structural prerequisites of history independence on every path: explicit reset rewrites every field (new fields reported by name); Drop => implicit reset clears all per-round fields; each of the 5 truncated IFFTs is preceded by zeroing of exactly its tail on the same buffer; the decoder's region operations tile the whole work buffer before the first transform; constructors pass taken-over working space through reset; no static/thread-local/clock input is reachable. Fresh (zero) buffers hide every one of these omissions from the tests.",
+        note="Not decided: numerical sufficiency of the zeroed regions in the multi-chunk high-rate encoder and lane-level leakage in a partial last block (arithmetic). Trusted: the documented Engine::ifft contract.",
+        design="§4 C05"),
     'C12': dict(
         technique="typed-HIR path-condition (decision-atom) extraction for the accessors, protocol recognition for the two iterators, must-call dominance for Drop and reset-completeness over MIR mutation summaries, check-before-use taint for the index, compile-fail witnesses",
         text="Decides the accessor/iterator/drop structure for all indexes and all histories: Some exactly under `index < count` (and received bit clear), slice = shards[pos][..shard_bytes]; iterators: ended only set true, ended => None, ascending, items are the accessor's; Drop calls the implicit reset on every path and that reset clears every field add_* writes; index checked before arithmetic (defect F3 repaired by fix: b5b55b1); adding while a result is alive does not type-check.",
